@@ -1,7 +1,7 @@
 """C01 - serialised child structure is always schema-valid (see mc/structcheck.py, DESIGN 4 C01)."""
 from mc import structcheck
 
-PROFILES = [('full', 4000, 60000), ('adds', 3000, 40000), ('fwd', 20000, 200000)]
+PROFILES = [('full', 4000, 60000), ('adds', 3000, 40000), ('fwd', 20000, 200000), ('deep', 70000, 600000)]
 
 
 def run(tier):
